@@ -175,6 +175,8 @@ class PeepPass(AbstractPass):
         return True
 
     def new(self, test_case, _=None):
+        if self.arg not in ['a', 'b', 'c']:
+            raise UnknownArgumentError(self.__class__.__name__, self.arg)
         return {'pos': 0, 'regex': 0}
 
     def advance(self, test_case, state):
